@@ -1683,6 +1683,12 @@ func (p *Parser) evaluateSwitch(ctx context) (Statement, error) {
 	}
 	useMock := true
 	nextToken = p.peek()
+
+	// Skip blank or comment-only lines before the first case.
+	for nextToken.Type() == lexer.NEWLINE {
+		p.eat()
+		nextToken = p.peek()
+	}
 	defaultSet := false
 
 	// While switch has not been terminated, evaluate cases.
